@@ -16,7 +16,7 @@ accepts_kw = z3.Function("accepts_kw", I, S, S, B)   # target's method accepts t
 SORTS = {"val": Val, "int": I, "bool": B, "str": S, "seq": SeqV, "set": SetMap, "map": KwMap, "hist": Hist, "event": Event, "ref": I,
          "harr": so.HistArr, "darr": so.DictArr}
 
-BUILTIN_KIND_TAGS = ("list", "set", "frozenset", "anyset", "dict", "str", "bytes", "tuple", "int", "bool", "none", "seq", "iter")
+BUILTIN_KIND_TAGS = ("list", "set", "frozenset", "anyset", "ftuple", "dict", "str", "bytes", "tuple", "int", "bool", "none", "seq", "iter")
 
 
 class SplitV(Value):
@@ -49,7 +49,7 @@ class Calls(Interp):
                     if not self.branch(obj.term != Val.none, "not None L%d" % getattr(node, "lineno", 0)):
                         self.raise_builtin("AttributeError", node)
                 return self.get_attr(SV(obj.term, arg), attr, node, default)
-            if kind in ("list", "set", "frozenset", "anyset", "dict", "str", "bytes", "tuple", "seq", "iter"):
+            if kind in ("list", "set", "frozenset", "anyset", "dict", "str", "bytes", "tuple", "ftuple", "seq", "iter"):
                 return BoundV(obj, ("builtin", kind), attr)
             ci = self.class_of_tag(obj.ty)
             if ci is not None:
@@ -57,6 +57,8 @@ class Calls(Interp):
             if kind in self.reg.shapes:
                 return self.shape_attr(obj, kind, attr, node, default)
             if kind == "exc" or kind in EXC_BASES:
+                if attr == "with_traceback":
+                    return BoundV(obj, ("builtin", "exc"), attr)
                 if attr == "args":
                     return SV(self.get_field(self.refof(obj), "args"), "tuple")
                 if attr == "__class__":
@@ -759,7 +761,7 @@ class Calls(Interp):
             return SV(Val.strv(so.fresh("res", S)), "str")
         if kind == "bytes":
             return SV(Val.bytesv(so.fresh("res", S)), "bytes")
-        if kind in ("seq", "iter", "tuple"):
+        if kind in ("seq", "iter", "tuple", "ftuple"):
             return SV(Val.tup(so.fresh("res", SeqV)), tag)
         if kind in ("list", "set", "frozenset", "anyset", "dict") or (kind and kind[0].isupper()):
             v = SV(Val.ref(so.fresh("res", I)), tag)
@@ -772,7 +774,7 @@ class Calls(Interp):
     def havoc_loc(self, loc, old_heap):
         """havoc one location of a modifies clause (expression evaluated in the pre-state heap)"""
         loc = loc.strip()
-        if loc in ("$hist", "$list", "$set", "$dict", "$G"):
+        if loc in ("$hist", "$list", "$set", "$dict", "$G", "$attrs"):
             self.set_comp(loc, so.fresh("hv_" + loc, self.comp(loc).sort()))
             return
         if loc.startswith("f:"):
@@ -1311,6 +1313,9 @@ class Calls(Interp):
         self.set_dict(recv, z3.Store(m, k, Val.absent))
         arg = parse_tag(recv.ty)[1]
         return TupV([SV(k, None), self.from_term(m[k], self.dict_value_tag(recv))])
+
+    def bm_exc_with_traceback(self, recv, args, kwargs, node):
+        return recv
 
     def bm_staticdict_get(self, recv, args, kwargs, node):
         return self.static_lookup(recv, args[0], node, default=args[1] if len(args) > 1 else SV(Val.none, "none"))
